@@ -37,7 +37,7 @@ CLAIMED = {
               "Tie by translation: the __validate__ method bodies of maflib/column_types.py are translated from the working tree on every run into PyIR terms (Generated/Bodies.lean) and C06Bodies.validate_* "
               "(59 theorems) state that interpreting them - real MRO dispatch, super(), constant hooks of the instance's class - equals the hand model's verdict over the regenerated class table for every value, "
               "for every column class whose hook does not iterate over its value, and - by induction over the interpreter's for loop (C06BodiesDna, 24 theorems) - for NullableDnaString and DnaString, whose hook walks the characters of the value; the interpreter itself is validated against the real methods on every run (body.validate / body.build)."),
-        note="the hooks of SequenceOfValuesColumn and its sub-classes (a nested dynamic call per element) are translated, executed and compared on every run, not proved",
+        note="the hooks of SequenceOfValuesColumn and its sub-classes (a nested dynamic call per element) are translated, executed and compared on every run, not proved; sorting-path theorems are stated for schemes of custom column types (unrestricted/mixed schemes on the sorting path are covered by the correspondence only); FloatHost laws assumed and checked on the run's graph",
         design="§6 C06"),
     "C08": dict(
         technique="Lean 4 proof (total preorder of the key comparison, operator agreement, totality on well-formed records) + SortOrderKey.compare translated from the source each run (PyIR) and proved equal to the model's cmpKV + differential correspondence",
